@@ -178,6 +178,19 @@ rg v0 setStart n2 3
 rg v0 setEnd n1 2
 rg v0 delete
 rg v1 get''',
+ 'getElementById-recycled-attribute': '''newdoc=n0 ~ r 0
+bind=n1 n0 de
+cE=n2 n0 e
+app n1 n2
+setAttr n1 id x
+setId n1 id 1
+getById n0 x
+remAttr n1 id
+cA=n3 n0 other
+setValue n3 x
+setAttrNode=n4 n2 n3
+getById n0 x
+getById n0 y''',
  'getElementById-after-removeAttribute': '''newdoc=n0 ~ r 0
 bind=n1 n0 de
 setAttr n1 id x
@@ -191,7 +204,7 @@ TIERS = {
     'micro': dict(nrandom=96, nops=300, depth=0, chk=5, tail=0.0),
     'mini': dict(nrandom=320, nops=300, depth=0, chk=5, tail=0.0),
     'quick': dict(nrandom=1500, nops=300, depth=0, chk=5, tail=0.0),
-    'thorough': dict(nrandom=12000, nops=600, depth=0, chk=10, tail=0.0),
+    'thorough': dict(nrandom=10000, nops=600, depth=0, chk=10, tail=0.0),
 }
 
 ASSUMPTIONS = [
